@@ -166,6 +166,33 @@ def ofBool (b : Bool) : Tri := if b then .tt else .ff
     parameter. -/
 abbrev Atoms := Expr → Ty → Val → Tri
 
+def missingBytes : Bytes := [109, 105, 115, 115, 105, 110, 103]   -- "missing"
+
+/-- an operand that is an error value: `error("missing")` or any other error. -/
+def errOperand (t : Ty) (v : Val) : Option Tri :=
+  match under t with
+  | .error et => if under et == .prim idString && v == .prim missingBytes then some .miss else some .err
+  | _ => none
+
+/-- evaluate a field operand and continue with `k`; a missing field or an error-valued operand
+    is the result (`numeric.eval`, `In.Eval`: an error operand is returned as is). -/
+def withField (t : Ty) (v : Val) (p : List Bytes) (k : Ty → Val → Tri) : Tri :=
+  match getPath t v p with
+  | none => .miss
+  | some (ft, fv) =>
+    match errOperand ft fv with
+    | some e => e
+    | none => k ft fv
+
+/-- the operand of a search: a missing field or an error value makes the search false. -/
+def withSearched (t : Ty) (v : Val) (p : List Bytes) (k : Ty → Val → Tri) : Tri :=
+  match getPath t v p with
+  | none => .ff
+  | some (ft, fv) =>
+    match errOperand ft fv with
+    | some _ => .ff
+    | none => k ft fv
+
 def evalFilter (lits : Lits) (atoms : Atoms) : Expr → Ty → Val → Tri
   | .bin op l r, t, v =>
     if op == "and" then (evalFilter lits atoms l t v).and (evalFilter lits atoms r t v)
@@ -178,14 +205,8 @@ def evalFilter (lits : Lits) (atoms : Atoms) : Expr → Ty → Val → Tri
           (match under lit.ty with
            | .prim id =>
              if isNumberId id || id == idNull then atoms (.bin op l r) t v
-             else
-               match getPath t v (pathBytes p) with
-               | some (ft, fv) => ofBool (litEq lit.ty lit.val ft fv)
-               | none => .miss
-           | _ =>
-             match getPath t v (pathBytes p) with
-             | some (ft, fv) => ofBool (litEq lit.ty lit.val ft fv)
-             | none => .miss)
+             else withField t v (pathBytes p) fun ft fv => ofBool (litEq lit.ty lit.val ft fv)
+           | _ => withField t v (pathBytes p) fun ft fv => ofBool (litEq lit.ty lit.val ft fv))
         | none => atoms (.bin op l r) t v
       | "in", .lit lv, .this p =>
         match lits lv with
@@ -193,31 +214,47 @@ def evalFilter (lits : Lits) (atoms : Atoms) : Expr → Ty → Val → Tri
           (match under lit.ty with
            | .prim id =>
              if isNumberId id || id == idNull then atoms (.bin op l r) t v
-             else
-               match getPath t v (pathBytes p) with
-               | some (ft, fv) => ofBool (inEval lit.ty lit.val ft fv)
-               | none => .miss
-           | _ =>
-             match getPath t v (pathBytes p) with
-             | some (ft, fv) => ofBool (inEval lit.ty lit.val ft fv)
-             | none => .miss)
+             else withField t v (pathBytes p) fun ft fv => ofBool (inEval lit.ty lit.val ft fv)
+           | _ => withField t v (pathBytes p) fun ft fv => ofBool (inEval lit.ty lit.val ft fv))
         | none => atoms (.bin op l r) t v
       | _, _, _ => atoms (.bin op l r) t v
   | .un op a, t, v => if op == "!" then (evalFilter lits atoms a t v).not else atoms (.un op a) t v
   | .search text value e, t, v =>
     match lits value, e with
     | some lit, .this p =>
-      (match getPath t v (pathBytes p) with
-       | none => .ff
-       | some (ft, fv) =>
-         match under lit.ty with
-         | .prim id =>
-           if id == idNet then atoms (.search text value e) t v
-           else if id == idString then ofBool (searchStringEval (primBytes lit.val) ft fv)
-           else if isNumberId id then atoms (.search text value e) t v
-           else ofBool (searchLitEval text.toUTF8.toList lit.ty lit.val ft fv)
-         | _ => atoms (.search text value e) t v)
+      withSearched t v (pathBytes p) fun ft fv =>
+        match under lit.ty with
+        | .prim id =>
+          if id == idNet then atoms (.search text value e) t v
+          else if id == idString then ofBool (searchStringEval (primBytes lit.val) ft fv)
+          else if isNumberId id then atoms (.search text value e) t v
+          else ofBool (searchLitEval text.toUTF8.toList lit.ty lit.val ft fv)
+        | _ => atoms (.search text value e) t v
     | _, _ => atoms (.search text value e) t v
   | e, t, v => atoms e t v
+
+theorem withField_tt {t : Ty} {v : Val} {p : List Bytes} {k : Ty → Val → Tri}
+    (h : withField t v p k = .tt) : ∃ ft fv, getPath t v p = some (ft, fv) ∧ k ft fv = .tt := by
+  unfold withField at h
+  split at h
+  · simp at h
+  · rename_i ft fv hg
+    split at h
+    · rename_i e he
+      unfold errOperand at he
+      split at he
+      · split at he <;> simp_all
+      · simp at he
+    · exact ⟨ft, fv, hg, h⟩
+
+theorem withSearched_tt {t : Ty} {v : Val} {p : List Bytes} {k : Ty → Val → Tri}
+    (h : withSearched t v p k = .tt) : ∃ ft fv, getPath t v p = some (ft, fv) ∧ k ft fv = .tt := by
+  unfold withSearched at h
+  split at h
+  · simp at h
+  · rename_i ft fv hg
+    split at h
+    · simp at h
+    · exact ⟨ft, fv, hg, h⟩
 
 end Zed.Bf
